@@ -27,6 +27,10 @@ def main():
         d = os.path.join(SEEDS, sid)
         meta = json.load(open(os.path.join(d, "meta.json")))
         prop = meta["property"]
+        if meta.get("confirmed") is False:
+            # not a confirmed change (its demonstration could not be reproduced in this environment)
+            res[sid] = {"property": prop, "skipped": "not confirmed: " + str(meta.get("why_unconfirmed", ""))}
+            continue
         rc, o = sh(["git", "-C", REPO, "status", "--porcelain", "--untracked-files=no"])
         if o.strip():
             print(REPO + " is not clean"); return 1
@@ -63,6 +67,8 @@ def main():
     rows = ["| seed | change | needs to manifest | caught at first evaluation | caught now by ./check <its property> | how |", "|---|---|---|---|---|---|"]
     for sid in sorted(res):
         r = res[sid]
+        if r.get("skipped"):
+            continue
         meta = json.load(open(os.path.join(SEEDS, sid, "meta.json")))
         how = "—" if not r.get("violations") else ("failing input + replay" if r.get("with_failing_input") else "no-failing-input-found (%s)" % ", ".join(r.get("kinds", [])))
         if r.get("tier") == "thorough":
